@@ -267,8 +267,9 @@ pub fn model_from_case(case: &Value) -> Model {
     for d in case["dom"].as_array().unwrap() {
         let name = d["name"].as_str().unwrap().to_string();
         let mut dv = DomainVariable::new(vtype_from(d), InputSpan::default());
+        // (`nomark`: the model is built the way a user of the Model API may build it, without usage marks)
         for u in &used {
-            if *u == name {
+            if *u == name && case["nomark"] != true {
                 dv.increment_usage();
             }
         }
@@ -294,9 +295,16 @@ pub fn model_json(m: &Model) -> R<Value> {
         }));
     }
     let mut dom = vec![];
+    // "used" = occurs in the objective or in a constraint (what the usage mark of the front ends means)
+    let mut occurring = vec![];
+    collect_vars(&m.objective().rhs, &mut occurring);
+    for c in m.constraints() {
+        collect_vars(c.lhs(), &mut occurring);
+        collect_vars(c.rhs(), &mut occurring);
+    }
     for (name, dv) in m.domain() {
         let mut v = vtype_json(name, dv.get_type())?;
-        v["used"] = json!(dv.is_used());
+        v["used"] = json!(dv.is_used() || occurring.contains(name));
         dom.push(v);
     }
     Ok(json!({
